@@ -166,7 +166,7 @@ theorem sig_idempotent (sel : Selection) (sg sg' : Sig)
         have := hsat
         simp only [satisfies, hsel, crit, Bool.and_eq_true] at this
         have h2 := this.2
-        simp only [Sketch.described, Bool.and_eq_true, bne_iff_ne, ne_eq] at h2
+        simp only [Sketch.described, bne_iff_ne, ne_eq] at h2
         exact ⟨h2.1, of_decide_eq_true h2.2⟩
       by_cases heq : t.scaled = sc
       · simp [deliver, hsel, heq, hsat]
